@@ -651,8 +651,18 @@ func (l *IPFSLog) Join(otherLog iface.IPFSLog, size int) (iface.IPFSLog, error) 
 		entries := entry.NewOrderedMapFromEntries(tmp)
 		heads := entry.NewOrderedMapFromEntries(entry.FindHeads(entry.NewOrderedMapFromEntries(tmp)))
 
+		// What was cut off must not count as a successor any more: an entry
+		// that comes back through a later merge could never become a head again
+		next := entry.NewOrderedMap()
+		for _, e := range tmp {
+			for _, n := range e.GetNext() {
+				next.Set(n.String(), e)
+			}
+		}
+
 		l.Entries = entries
 		l.heads = heads
+		l.Next = next
 	}
 
 	// Find the latest clock from the heads
